@@ -33,6 +33,10 @@ pub struct Cfg {
     /// count (the FDT then carries FEC attributes at instance level AND, different, at file level)
     #[serde(default)]
     pub sess_like: bool,
+    /// 0 = one object; 1 = a second object (other bytes, 3 bytes longer), both multiplexed, full FDT;
+    /// 2 = a second object sent after the first, FDT listing only the objects being transferred
+    #[serde(default)]
+    pub second: u8,
 }
 
 impl Cfg {
@@ -49,7 +53,17 @@ impl Cfg {
         }
         let mut s = SessSpec::basic(if self.sess_like { OtiSpec::new(self.scheme, self.e, self.b * 2, if self.scheme == Scheme::NoCode { 0 } else { self.parity + 1 }, true) } else { OtiSpec::new(Scheme::NoCode, 1424, 64, 0, true) });
         s.interleave = self.interleave;
-        RecSpec { sess: s, objs: vec![o], polls_ms: if self.carousel { vec![0, 2000] } else { vec![0] } }
+        let mut objs = vec![o];
+        if self.second != 0 {
+            let mut o2 = objs[0].clone();
+            o2.len += 3;
+            o2.salt = 77;
+            o2.location = "file:///second".into();
+            objs.push(o2);
+            s.queues = vec![(0, if self.second == 1 { 2 } else { 1 })];
+            s.full_fdt = self.second == 1;
+        }
+        RecSpec { sess: s, objs, polls_ms: if self.carousel { vec![0, 2000] } else { vec![0] } }
     }
 }
 
@@ -80,6 +94,7 @@ pub struct Prepared {
     pub content: Vec<u8>,
     pub toi: u128,
     pub tl: u64,
+    pub contents: std::collections::BTreeMap<u128, Vec<u8>>,
 }
 
 pub fn prepare(cfg: &Cfg) -> Result<Prepared, String> {
@@ -92,7 +107,8 @@ pub fn prepare(cfg: &Cfg) -> Result<Prepared, String> {
         }
     }
     let (toi, _, tl) = rec.objs[0];
-    Ok(Prepared { cfg: cfg.clone(), rec, distinct, content: spec.objs[0].content(), toi, tl })
+    let contents = rec.objs.iter().map(|(t, i, _)| (*t, spec.objs[*i].content())).collect();
+    Ok(Prepared { cfg: cfg.clone(), rec, distinct, content: spec.objs[0].content(), toi, tl, contents })
 }
 
 #[derive(Default, Clone)]
@@ -163,12 +179,16 @@ pub fn run_seq(p: &Prepared, seq: &[usize], corrupt: Option<&Corrupt>, g: &mut G
         oh.push(format!("{}:{}", w.toi, w.short()));
         if w.is_complete() {
             g.completes += 1;
-            if w.data() != p.content {
+            let content = match p.contents.get(&w.toi) {
+                Some(c) => c,
+                None => return Some((format!("C03/complete-for-unknown-toi/{}", sch), format!("writer [{}] completed for TOI {} which the sender never used", w.short(), w.toi))),
+            };
+            if &w.data() != content {
                 let d = w.data();
-                let eq = d.iter().zip(p.content.iter()).take_while(|(a, b)| a == b).count();
+                let eq = d.iter().zip(content.iter()).take_while(|(a, b)| a == b).count();
                 return Some((
                     format!("C03/complete-with-wrong-bytes/{}{}", sch, if corrupt.is_some() { "/corrupted" } else { "" }),
-                    format!("writer [{}] reported complete with {} bytes (object has {}), first difference at byte {}", w.short(), d.len(), p.content.len(), eq),
+                    format!("writer [{}] of TOI {} reported complete with {} bytes (object has {}), first difference at byte {}", w.short(), w.toi, d.len(), content.len(), eq),
                 ));
             }
         }
@@ -234,7 +254,7 @@ fn run_corrupt_expect(p: &Prepared, seq: &[usize], c: &Corrupt, g: &mut G) -> Op
 }
 
 fn configs(thorough: bool) -> Vec<Cfg> {
-    let c = |scheme, e, b, parity, len, cenc, inband_fti, count, carousel, interleave| Cfg { scheme, e, b, parity, len, cenc, inband_fti, count, carousel, interleave, inband_cenc: inband_fti, md5: true, incompressible: false, sess_like: false };
+    let c = |scheme, e, b, parity, len, cenc, inband_fti, count, carousel, interleave| Cfg { scheme, e, b, parity, len, cenc, inband_fti, count, carousel, interleave, inband_cenc: inband_fti, md5: true, incompressible: false, sess_like: false, second: 0 };
     let mut v = vec![
         c(Scheme::NoCode, 4, 2, 0, 11, 0, true, 1, false, 1),
         c(Scheme::NoCode, 4, 2, 0, 11, 0, false, 1, false, 1),
@@ -282,6 +302,22 @@ fn configs(thorough: bool) -> Vec<Cfg> {
                 x.md5 = md5;
                 x.sess_like = true;
                 v.push(x);
+            }
+        }
+    }
+    // two objects in one session (multiplexed under a full FDT / sequential under per-transfer FDT instances)
+    for (scheme, e, b, parity, len) in [(Scheme::NoCode, 4u16, 2u16, 0u16, 5usize), (Scheme::Rs28, 4, 2, 1, 5), (Scheme::NoCode, 4, 1, 0, 6), (Scheme::RaptorQ, 4, 2, 1, 5)] {
+        for inband_fti in [true, false] {
+            for second in [1u8, 2] {
+                for md5 in [true, false] {
+                    if !md5 && scheme == Scheme::RaptorQ {
+                        continue;
+                    }
+                    let mut x = c(scheme, e, b, parity, len, 0, inband_fti, 1, false, 1);
+                    x.md5 = md5;
+                    x.second = second;
+                    v.push(x);
+                }
             }
         }
     }
